@@ -116,11 +116,13 @@ impl CodeGenerator {
     /// Returns random float value within the bounds given by configuration
     pub fn random_float(push_state: &PushState) -> Option<f32> {
         let mut rng = rand::thread_rng();
-        if push_state.configuration.min_random_float < push_state.configuration.max_random_float {
-            Some(rng.gen_range(
-                push_state.configuration.min_random_float
-                    ..push_state.configuration.max_random_float,
-            ))
+        let min = push_state.configuration.min_random_float;
+        let max = push_state.configuration.max_random_float;
+        if min < max && min.is_finite() && max.is_finite() {
+            // Sample in f64: max - min can overflow f32 (e.g. f32::MIN..f32::MAX)
+            let val = rng.gen_range(min as f64..max as f64) as f32;
+            // Rounding to f32 may hit the exclusive upper bound
+            Some(if val < max { val } else { min })
         } else {
             None
         }
